@@ -604,6 +604,12 @@ ZDICT_trainFromBuffer_fastCover(void* dictBuffer, size_t dictBufferCapacity,
     {
       /* Initialize array to keep track of frequency of dmer within activeSegment */
       U16* segmentFreqs = (U16 *)calloc(((U64)1 << parameters.f), sizeof(U16));
+      if (segmentFreqs == NULL) {
+          DISPLAYLEVEL(1, "Failed to allocate segment frequencies\n");
+          FASTCOVER_ctx_destroy(&ctx);
+          return ERROR(memory_allocation);
+      }
+      {
       const size_t tail = FASTCOVER_buildDictionary(&ctx, ctx.freqs, dictBuffer,
                                                 dictBufferCapacity, coverParams, segmentFreqs);
       const unsigned nbFinalizeSamples = (unsigned)(ctx.nbTrainSamples * ctx.accelParams.finalize / 100);
@@ -617,6 +623,7 @@ ZDICT_trainFromBuffer_fastCover(void* dictBuffer, size_t dictBufferCapacity,
       FASTCOVER_ctx_destroy(&ctx);
       free(segmentFreqs);
       return dictionarySize;
+      }
     }
 }
 
